@@ -1,4 +1,5 @@
 from checks._world_common import ASSUMPTIONS, COMPONENTS, make, simplify_knobs, simplify_op  # noqa: F401
+from sim.cmd_scenario import CmdScenario
 
 PROP = "C01"
 LEVEL = "exploration"
@@ -11,7 +12,7 @@ PROFILE = dict(
     backends=["slurm", "slurm", "sge", "lsf", "local"],
     granularities=[1.0 / 1024, 1.0 / 16, 1.0, 1.0, 2.0],
     weights=dict(status=5, run=1.5, start=2, finish=2.5, purge=0.5, acct_flush=0.5, modify_source=1.5, delete_output=1,
-                 touch_file=2, set_file=2, edit_spec=1, advance=1, tick=1),
-    p_job_ok=0.85, p_hashing=0.5, p_skew=0.5, p_no_outputs=0.15,
+                 touch_file=2, set_file=2, edit_spec=1, advance=1, tick=1, touch=0.6, reject_submit=0.6),
+    p_job_ok=0.85, p_hashing=0.5, p_skew=0.5, p_no_outputs=0.15, p_epoch_zero=0.06,
 )
-make_scenario = make({"C01"}, PROFILE)
+make_scenario = make({"C01"}, PROFILE, CmdScenario)
